@@ -21,12 +21,24 @@ def main():
     for ename, decl in job["enums"].items():
         if decl["how"] == "hand":
             body = "\n".join(f"    {m['name']} = {m['ord']}" for m in decl["members"])
+            # an unrelated enum class of the same qualified name has been declared and used earlier in this process
+            # (other members for the same ordinals): classes are independent of their namesakes
+            decoy = "\n".join(f"    {m['name']}_ = {m['ord'] + 1}" for m in decl["members"]) + "\n    Zero_ = " + str(min(m["ord"] for m in decl["members"]))
+            head = "from enum import IntEnum\nfrom eolib.protocol.protocol_enum_meta import ProtocolEnumMeta\n"
+            dns = {}
+            exec(head + f"class {ename}(IntEnum, metaclass=ProtocolEnumMeta):\n{decoy}\n", dns)
+            for m in decl["members"]:
+                dns[ename](m["ord"]), dns[ename](m["ord"] + 1), dns[ename](m["ord"] + 1000)
             ns = {}
-            exec("from enum import IntEnum\nfrom eolib.protocol.protocol_enum_meta import ProtocolEnumMeta\n"
-                 f"class {ename}(IntEnum, metaclass=ProtocolEnumMeta):\n{body}\n", ns)
+            exec(head + f"class {ename}(IntEnum, metaclass=ProtocolEnumMeta):\n{body}\n", ns)
             classes[ename] = ns[ename]
         else:
             mod = importlib.import_module("eolib.protocol._generated.net." + decl["module"])
+            # ... for a generated enum the namesake is the class of the same module before a reload
+            old = getattr(mod, ename)
+            for m in decl["members"]:
+                old(m["ord"]), old(m["ord"] + 1000)
+            mod = importlib.reload(mod)
             classes[ename] = getattr(mod, ename)
 
     def tables():
